@@ -334,6 +334,22 @@ impl<R: DynamicChannelRegion> RegionHandler for DynamicChannelPlan<R> {
     }
 }
 
+#[cfg(lora_rs_verif)]
+impl<R: DynamicChannelRegion> DynamicChannelPlan<R> {
+    /// verification hook (read-only): (uplink frequency, raw data-rate range, downlink frequency) per channel slot, and the channel mask
+    pub(crate) fn verif_snapshot(&self) -> (std::vec::Vec<Option<(u32, u8, Option<u32>)>>, [u8; 9]) {
+        let mut mask = [0u8; 9];
+        mask.copy_from_slice(self.channel_mask.as_ref());
+        (
+            self.channels
+                .iter()
+                .map(|c| c.map(|c| (c.frequency, c._datarates.raw_value(), c.dl_frequency)))
+                .collect(),
+            mask,
+        )
+    }
+}
+
 #[cfg(all(test, feature = "region-eu868"))]
 mod tests {
     use super::*;
